@@ -29,12 +29,13 @@ quick_time_conv = [
  {"entry": "HCDateDec"}, {"entry": "HCTimeDec"}, {"entry": "HCTime"},
  {"entry": "HCDateTimeDec", "args": [[0], [1]]},
  {"entry": "HCDate", "args": [[2000, 2000]]},
+ {"entry": "HCDateTime", "args": [[2024, 2024, -480]]},
 ]
 thorough_time_conv = [
  {"entry": "HCDateDec"}, {"entry": "HCTimeDec"}, {"entry": "HCTime"},
  {"entry": "HCDateTimeDec", "args": [[0], [1], [2]]},
  {"entry": "HCDate", "args": [[1901, 2000], [2001, 2100]]},
- {"entry": "HCDateTime", "args": [[2000, 2000], [1969, 1970]]},
+ {"entry": "HCDateTime", "args": [[2000, 2000, 0], [1969, 1970, 0], [2024, 2024, -480], [2024, 2024, 345]]},
 ]
 quick_time_json = [
  {"entry": "HJUnixDec", "args": [[0, 10, 0], [0, 10, 1], [1, 13, 0], [1, 14, 1], [2, 16, 0], [3, 19, 0], [3, 19, 1]]},
